@@ -9,7 +9,7 @@ From Coq Require Import List NArith Bool Lia ZifyBool ZifyN.
 From Coq Require Import Strings.Byte.
 From HN Require Import Base.Bytes Base.Http1Text Model.SigAst Model.Match Model.Http1 Model.Http1Obs Model.Reach
   Spec.ScanSpec Spec.InstanceSpec Spec.Http1Grammar Spec.ConformSpec Spec.ReachSpec Spec.ReachHttpSpec Gen.HeaderLists
-  Proofs.MatchProofs Proofs.ScanProofs Proofs.Http1ObsProofs Proofs.C05Final Proofs.ReachTcp.
+  Proofs.MatchProofs Proofs.ScanProofs Proofs.Http1Proofs Proofs.Http1ObsProofs Proofs.C05Final Proofs.ReachTcp.
 Import ListNotations.
 Open Scope N_scope.
 
@@ -352,11 +352,12 @@ Section Check.
     Forall2 (rel k tbl) (rev pre) fields_pre ->
     seen = existsb (fun nv => swnamed k (fst nv)) fields_pre ->
     (seen = false -> conf_software tok (software_value k fields) = true) ->
+    (forall nv, In nv fields -> value_feasible k (fst nv) (snd nv) = true) ->
     conf_headers sig fields = true ->
     check_from k tbl li si s sw_all sw_own sig pre seen = true ->
     exists am, Forall2 (rel k tbl) am (fields_pre ++ fields) /\ final_ok k tbl li si s am = true.
   Proof.
-    induction sig as [|sh sig IH]; intros pre seen fields_pre fields FP SE SWC CH CK.
+    induction sig as [|sh sig IH]; intros pre seen fields_pre fields FP SE SWC FE CH CK.
     - cbn [conf_headers] in CH. destruct fields; [|discriminate]. rewrite app_nil_r.
       cbn [check_from] in CK. exists (rev pre). split; assumption.
     - cbn [conf_headers] in CH. cbn [check_from] in CK. apply andb_true_iff in CK. destruct CK as [CK1 CK2].
@@ -366,7 +367,8 @@ Section Check.
         repeat (apply andb_true_iff in CH; destruct CH as [CH ?]). rename H into CHR, H0 into CV.
         apply bytes_eqb_eq in CH. subst n.
         set (swc := if seen then sw_all else sw_own) in *.
-        set (cl := filter (conf_value (h_value sh)) (cands k tbl swc (h_name sh))).
+        assert (FV : value_feasible k (h_name sh) v = true) by (apply (FE (h_name sh, v)); left; reflexivity).
+        set (cl := filter (fun l => conf_value (h_value sh) l && value_feasible k (h_name sh) l) (cands k tbl swc (h_name sh))).
         set (av := if existsb (bytes_eqb v) cl then AExact v else AFresh).
         assert (INC : In av (choices k tbl swc sh)).
         { unfold choices. fold cl. apply in_or_app. unfold av. destruct (existsb (bytes_eqb v) cl) eqn:EX.
@@ -377,7 +379,7 @@ Section Check.
         { unfold rel. cbn [fst snd]. split; [reflexivity|]. split; [exact CV|].
           unfold av. destruct (existsb (bytes_eqb v) cl) eqn:EX; [reflexivity|].
           assert (NC : ~ In v (cands k tbl swc (h_name sh))).
-          { intros IN. assert (INCL : In v cl) by (unfold cl; apply filter_In; split; assumption).
+          { intros IN. assert (INCL : In v cl) by (unfold cl; apply filter_In; split; [exact IN | rewrite CV, FV; reflexivity]).
             assert (existsb (bytes_eqb v) cl = true) by (apply existsb_exists; exists v; split; [exact INCL | apply (eqb_refl_of bytes_eqb bytes_eqb_eq)]).
             congruence. }
           unfold cands in NC. split.
@@ -393,6 +395,7 @@ Section Check.
         * rewrite existsb_app. cbn [existsb fst]. rewrite orb_false_r, SE. reflexivity.
         * intros E. apply orb_false_iff in E. destruct E as [E1 E2]. specialize (SWC E1).
           rewrite software_value_cons, E2 in SWC. exact SWC.
+        * intros nv INV. apply FE. right. exact INV.
         * exact CHR.
       + (* an optional header left out *)
         apply andb_true_iff in CH. destruct CH as [OP CH]. rewrite OP in CK2.
@@ -499,6 +502,48 @@ Proof.
   apply substrings_In. exact C.
 Qed.
 
+(* well-formed messages carry feasible values *)
+Lemma sep_concat_head x r : x <> [] -> exists b t, sep_concat ","%byte (x :: r) = b :: t /\ exists t', x = b :: t'.
+Proof. destruct x as [|b t']; [congruence|]. intros _. destruct r; cbn [sep_concat]; eexists; eexists; (split; [reflexivity|]); eexists; reflexivity. Qed.
+Lemma split_first_head t p rest : split_byte "-"%byte t = p :: rest -> p <> [] -> exists b t', t = b :: t' /\ exists p', p = b :: p'.
+Proof.
+  destruct t as [|b t']; cbn [split_byte]; intros E NE.
+  - inversion E. congruence.
+  - destruct (beqb b "-"%byte); [inversion E; congruence|].
+    exists b, t'. split; [reflexivity|]. unfold cons_head in E. destruct (split_byte "-"%byte t') as [|x xs]; inversion E; eexists; reflexivity.
+Qed.
+Lemma wf_feasible k m : wf m = true -> msg_kind m = k -> forall nv, In nv (msg_fields m) -> value_feasible k (fst nv) (snd nv) = true.
+Proof.
+  intros W K nv IN. unfold value_feasible. destruct k; [|reflexivity].
+  destruct (ci_eq (fst nv) (bs "accept-language")) eqn:CI; [|reflexivity].
+  unfold msg_fields in IN. apply in_map_iff in IN. destruct IN as [h [E INH]]. subst nv. cbn [fst snd] in *.
+  assert (R : is_request m = true) by (unfold msg_kind in K; destruct (is_request m); [reflexivity | discriminate]).
+  destruct (wf_parts m W) as (_ & _ & Hl & _). rewrite R in Hl. rewrite Forall_forall in Hl.
+  destruct (line_ok_special h (Hl h INH)) as [HA _]. destruct (HA CI) as (items & EI & OK).
+  rewrite EI. cbn [render_value].
+  destruct items as [|i items]; [reflexivity|].
+  unfold items_ok in OK. apply andb_true_iff in OK. destruct OK as [OK _]. apply andb_true_iff in OK. destruct OK as [FA H0].
+  cbn [forallb] in FA. apply andb_true_iff in FA. destruct FA as [IO _].
+  apply bytes_eqb_eq in H0. unfold item_ok in IO. apply andb_true_iff in IO. destruct IO as [IO _].
+  apply andb_true_iff in IO. destruct IO as [_ TG]. unfold tag_ok in TG.
+  assert (HD : exists b t', li_tag i = b :: t' /\ (is_alpha b || beqb b "*"%byte) = true).
+  { apply orb_true_iff in TG. destruct TG as [TG|TG].
+    - apply bytes_eqb_eq in TG. rewrite TG. eexists; eexists; split; [reflexivity|]. reflexivity.
+    - destruct (split_byte "-"%byte (li_tag i)) as [|p rest] eqn:SP; [discriminate|].
+      apply andb_true_iff in TG. destruct TG as [ST _]. unfold subtag_ok in ST.
+      apply andb_true_iff in ST. destruct ST as [ST ALL]. apply andb_true_iff in ST. destruct ST as [ST _]. apply negb_true_iff in ST.
+      assert (PN : p <> []) by (intros EP; subst p; discriminate).
+      destruct (split_first_head _ _ _ SP PN) as (b & t' & ET & p' & EP). exists b, t'. split; [exact ET|].
+      subst p. cbn [forallb] in ALL. apply andb_true_iff in ALL. destruct ALL as [AL _]. rewrite AL. reflexivity. }
+  destruct HD as (b & t' & ET & AB).
+  assert (RI : exists tl, render_item i = b :: tl) by (unfold render_item; rewrite H0, ET; eexists; reflexivity).
+  destruct RI as [tl RI].
+  cbn [map]. destruct (sep_concat_head (render_item i) (map render_item items)) as (b' & t'' & SC & tl' & RB); [rewrite RI; discriminate|].
+  rewrite RI in RB. inversion RB. subst b'.
+  assert (G : forall l, l = b :: t'' -> match l with [] => true | b0 :: _ => is_alpha b0 || beqb b0 "*"%byte end = true) by (intros l ->; exact AB).
+  exact (G _ SC).
+Qed.
+
 Theorem reach_http_live (db : database) (k : hkind) (li si : N) (s : http_sig) (m : msg) (body : bytes) :
   In (li, si, s) (positions (http_table db k)) ->
   live_http_b k (http_table db k) li si s = true ->
@@ -516,7 +561,7 @@ Proof.
   unfold live_http_b, live_http_w in LV. cbv zeta in LV. apply andb_true_iff in LV. destruct LV as [FOK CK].
   rewrite check_prep_eq in CK.
   destruct (check_sound k tbl li si s (sw_all_of tbl) (sw_all_complete tbl) (hs_horder s) [] false [] (msg_fields m)
-              (Forall2_nil _) eq_refl (fun _ => CSW) CHD CK) as [am [F OK]].
+              (Forall2_nil _) eq_refl (fun _ => CSW) (wf_feasible k m W K) CHD CK) as [am [F OK]].
   cbn [app] in F.
   unfold final_ok in OK. rewrite (abs_sw_own k tbl _ _ _ F CSW) in OK. cbn [negb orb] in OK.
   rewrite forallb_forall in OK.
